@@ -5,6 +5,14 @@ Content is str; every open is recorded with (path, mode, newline, encoding).
 import typing as typ
 
 
+def _norm(s):
+    """what pathlib does to a relative path spelling: drop './' segments and doubled slashes"""
+    if s.startswith("/"):
+        return s
+    parts = [x for x in s.split("/") if x not in ("", ".")]
+    return "/".join(parts) if parts else "."
+
+
 class MemFS:
     def __init__(self, files: typ.Dict[str, str]):
         self.files = dict(files)
@@ -90,11 +98,17 @@ class MemFS:
                 key = self._key()
                 return key in fs.files or key in fs.dirs
 
+            def is_file(self):
+                return self._key() in fs.files
+
+            def is_dir(self):
+                return self._key() in fs.dirs or self._s in (".", "")
+
             def _key(self):
                 s = self._s
                 if s.startswith(fs.cwd + "/"):
                     s = s[len(fs.cwd) + 1:]
-                return s
+                return _norm(s)
 
             def is_absolute(self):
                 return self._s.startswith("/")
@@ -118,6 +132,7 @@ class MemFS:
 
             def glob(self, pattern):
                 import fnmatch
+                pattern = _norm(pattern)     # pathlib yields canonical relative paths: './a.txt' and 'a//b' match 'a.txt', 'a/b'
                 return [Path(k) for k in sorted(fs.files) if fnmatch.fnmatchcase(k, pattern)]
 
             def open(self, mode="r", buffering=-1, encoding=None, errors=None, newline=None):
@@ -142,6 +157,7 @@ class MemFS:
         p = str(path)
         if p.startswith(self.cwd + "/"):
             p = p[len(self.cwd) + 1:]
+        p = _norm(p)
         self.opens.append((p, mode, newline, encoding))
         if ("r" in mode) and p not in self.files:
             raise FileNotFoundError(p)
